@@ -1,3 +1,3 @@
 From Coq Require Import ExtrOcamlBasic ZArith List.
-From RtoscV Require Import Save.TopoModel Save.SaveModel Save.TopoTree.
-Extraction "model.ml" Z.add Z.mul Z.opp initial send save_lines load_file dispatch_printed load_order exists_ live val_at port_at apropos_of_tree.
+From RtoscV Require Import Save.TopoModel Save.SaveModel Save.TopoTree Save.DeclModel.
+Extraction "model.ml" Z.add Z.mul Z.opp initial send save_lines load_file dispatch_printed load_order exists_ live val_at port_at apropos_of_tree declared_b.
